@@ -117,7 +117,7 @@ def run(ctx):
             else:
                 unexpl.append(("mailbox list round trip", "list=%r parsed=%s" % (lists[k][:4], p[:200])))
     # ---- header map operations
-    hnames = ["Subject", "subject", "SUBJECT", "SubJect", "X-A", "x-a", "X-a", "To", "tO", "Comments", "Message-ID", "Message-Id"]
+    hnames = ["Subject", "subject", "SUBJECT", "SubJect", "X-A", "x-a", "X-a", "To", "tO", "Comments", "COMMENTS", "Keywords", "keywords", "Received", "Resent-From", "Message-ID", "Message-Id"]
     ol = []
     for _ in range(400 if ctx.tier == "quick" else 8000):
         ops = []
@@ -134,6 +134,29 @@ def run(ctx):
     oi, om = run_impl(ol), run_model(ol)
     ctx.count(len(ol))
     odiff = [k for k in range(len(ol)) if oi[k] != om[k]]
+    # the same sequences against the plainest specification: one value per name (compared without regard to letter case), a set replaces
+    # it, a remove takes it away, a get reads it
+    ops_bad = []
+    for line, r in zip(ol, oi):
+        want, store = [], {}
+        got = r.split("\t")[0].split(";") if r.split("\t")[0] else []
+        seq = line.split("\t")[1].split(";") if line.split("\t")[1] else []
+        if len(got) != len(seq):
+            ops_bad.append((line, "%d results for %d operations" % (len(got), len(seq)))); continue
+        for o, g in zip(seq, got):
+            p = o.split(",")
+            key = unhx(p[1]).lower()
+            if p[0] == "set":
+                if g != "badname":
+                    store[key] = unhx(p[2])
+                want.append(g)
+            elif p[0] == "get":
+                want.append("some:" + hx(store[key]) if key in store else "none")
+            else:
+                want.append("some:" + hx(store.pop(key)) if key in store else "none")
+        if want != got:
+            k = next(i for i, (a, b) in enumerate(zip(want, got)) if a != b)
+            ops_bad.append((line, "operation %d (%s) answers %s, one value per name gives %s" % (k, seq[k][:60], got[k][:60], want[k][:60])))
     # ---- typed headers read back (oracle on the implementation)
     tl = []
     for y in [1970, 1971, 1972, 1999, 2000, 2001, 2004, 2038, 2100, 2400, 9999]:
@@ -192,7 +215,8 @@ def run(ctx):
                                  "date.display/date.parse": {"display": len(dl2), "parse_hostile": len(dp), "parse_of_displayed": len(dp2), "parsed_ok": sum(1 for x in di2[len(dl2):] if x.startswith("some")), "disagreements": len(date_diff)}}
     ctx.cov.setdefault("oracle_serde", {"serde_tied_to_display_and_fromstr": {"cases": len(sl), "failures": len(ser_bad)}})
     ctx.cov["oracle"] = {"display_then_parse_on_impl": {"mailboxes": len(cases), "lists": len(lists), "unexplained": len(unexpl), "known_class_hits": dict(hits)},
-                         "typed_header_get_set_on_impl": {"cases": len(tl), "failures": len(tbad)}}
+                         "typed_header_get_set_on_impl": {"cases": len(tl), "failures": len(tbad)},
+                         "header_map_one_value_per_name": {"sequences": len(ol), "failures": len(ops_bad)}}
     ctx.cov["exhaustive"] = True
     ctx.cov["rule"] = "Mailbox::from_str and Mailboxes::from_str on all strings over a 12-symbol alphabet up to the stated length plus grammar-directed strings (model fed the real oracle answers for each parsed domain); Display on names from every character class x 7 address shapes, lists of 0..50; header-map operation sequences with case variants; typed headers (Date at every month/leap/century boundary + random seconds, MimeVersion pairs, CTE, Content-Disposition file names, Content-Type samples, text) stored and read back; non-trivial = string that parses successfully"
     ctx.sample({"input": strs[n_exh + 3], "model": parse_both("mbox", [strs[n_exh + 3]])[1][0]})
@@ -204,6 +228,8 @@ def run(ctx):
         ctx.violation({"kind": "oracle", "entry": "serde of Mailbox / Mailboxes", "line": ser_bad[0][0][:2000], "what": ser_bad[0][1][:600], "failures": len(ser_bad)})
     if tbad:
         ctx.violation({"kind": "oracle", "entry": "typed header stored and read back", "line": tbad[0][0], "impl": tbad[0][1][:300], "failures": len(tbad)})
+    if ops_bad:
+        ctx.violation({"kind": "oracle", "entry": "header map: set / get / remove", "line": ops_bad[0][0][:1500], "what": ops_bad[0][1], "failures": len(ops_bad)})
     if date_rt_bad:
         ctx.violation({"kind": "oracle", "entry": "Date displayed and parsed again", "line": date_rt_bad[0][0], "impl": date_rt_bad[0][1][:200], "failures": len(date_rt_bad)})
     if date_diff and not ctx.violations:
